@@ -15,6 +15,32 @@ def gitlog(pat):
     return [l for l in out.split("\n") if l]
 region("hooks", "\n".join("   - `%s`" % l for l in gitlog("^verif hook")))
 region("repairs", "\n".join(" * `%s`" % l for l in gitlog("^fix:")))
+# per-property table: theorem counts from Props/*.v, translators from the Gen imports, technique from manifest.d
+import glob, json
+rows = ["| prop | theorems in `Props/` | translators (source -> `coq/Gen`) | deciding method | notes |", "|---|---|---|---|---|"]
+gen_of = {}
+for f in glob.glob(os.path.join(R, "vplib", "translate", "gen_*.py")) + glob.glob(os.path.join(R, "vplib", "props", "*_gen.py")):
+    for g in re.findall(r'gen_write\(\s*"(\w+)"', open(f).read()):
+        gen_of[g] = os.path.basename(f)[:-3]
+def closure(pid):
+    seen, todo = set(), ["Props/%s.v" % pid]
+    while todo:
+        f = todo.pop()
+        if f in seen or not os.path.exists(os.path.join(R, "coq", f)): continue
+        seen.add(f)
+        for line in re.findall(r"From PV Require (?:Import|Export)([^.]*(?:\.[A-Za-z][^.]*)*)\.\s", open(os.path.join(R, "coq", f)).read()):
+            for mod in line.split():
+                todo.append(mod.replace(".", "/") + ".v")
+    return seen
+for pf in sorted(glob.glob(os.path.join(R, "coq", "Props", "C*.v"))):
+    pid = os.path.basename(pf)[:-2]
+    src = open(pf).read()
+    n = len(re.findall(r"^\s*(?:Theorem|Lemma|Corollary)\s", src, re.M))
+    gens = sorted({gen_of.get(os.path.basename(f)[:-2], os.path.basename(f)[:-2]) for f in closure(pid) if f.startswith("Gen/")})
+    mf = os.path.join(R, "manifest.d", pid + ".json")
+    tech = json.load(open(mf)).get("technique", "") if os.path.exists(mf) else ""
+    rows.append("| %s | %d | %s | %s | `design.d/%s.md` |" % (pid, n, ", ".join(gens) or "— (hand model + correspondence)", tech.replace("|", "/")[:260], pid))
+region("perprop", "\n".join(rows))
 m = os.path.join(R, "seeded", "MATRIX.md")
 if os.path.exists(m):
     rows = [l for l in open(m).read().split("\n") if l.startswith("| C")]
